@@ -235,6 +235,14 @@ def cases(tier, rng):
             for d in ([item] + tail, [('E', 'itemize', [('absent',)], [item] + tail + [('W', '\n')])], [('T', 'a'), ('W', ' '), item] + tail):
                 for c in doc_cases(d, per_policy + [mk_opts(p) for p in EXTRA_POLICIES], fix=False):
                     yield c
+    # (a'') square brackets INSIDE a child construct of an optional bracket argument (a macro's braced argument, a formula):
+    #       they are text there — only the bracket that closes the argument itself is structural
+    for lab in ([M('textbf', grp(T('[a]')))], [M('emph', grp(T('see'), W(' '), T('[1]')))], [F('$', T('f[x]'))], [M('textit', grp(T('a'))), T(':'), W(' '), F('$', T('[0,1]'))],
+                [G(T('[a]'))], [F('\\(', T('g[y]'))], [M('emph', grp(M('textbf', grp(T('[n]')))))]):
+        for d in ([E('itemize', [ABS], M('item', br(*lab)), W(' '), T('body'))], [E('enumerate', [ABS], W('\n'), M('item', br(*lab)), W(' '), T('b'), W('\n'))],
+                  [M('sqrt', br(*lab), grp(T('x'))), W(' '), T('t')]):
+            for o in per_policy + [mk_opts(kb=True, ml=5)]:
+                yield {'k': 'doc', 'd': d, 'o': o}
     # (b) bounded-exhaustive sequences of atoms
     atoms = spectext._atoms()
     k = 2 if quick else 3
